@@ -876,17 +876,18 @@ example : Impl.MU.Reach (m := 2) !![(1 : ℚ), 2; 3, 4] 2 !![1, 2; -8, 4] := by
     · exact absurd hr (by decide)
 
 /-!
-### Partial (full statement kept visible)
+### Spectral stage
 
-`theorem Hrr.makeUnitary_isUnitary : ∀ v, IsUnitary (make_unitary v)` and
-`theorem Hrr.fractional_power_add : ∀ v positive, ∀ a b ≥ 0 real, v^a ⊛ v^b = v^(a+b)`
-are statements about the spectrum (every half-spectrum coefficient divided by its modulus,
-exact zeros replaced by 1; `z^a z^b = z^(a+b)` coefficient-wise).  They need the DFT ring
-isomorphism (stage-2 spectral layer), which is not part of this model: `make_unitary` (HRR)
-and fractional powers are `PowRes.spectral` / not modelled, and are certified per input by
-the correspondence check (exact residual `‖u ⊛ ~u − δ‖∞ ≤ 1e-9` computed by the driver from
-the implementation's output, additivity at 1e-9).  Everything that follows from unitarity
-(`Hrr.unitary_*`) is proved above for every `u` with `IsUnitary u`.
+`Hrr.makeUnitary_isUnitary : ∀ v, IsUnitary (make_unitary v)` and
+`Hrr.fractional_power_add : ∀ v of positive sign, ∀ a b ≥ 0 real, v^a ⊛ v^b = v^(a+b)` are statements
+about the spectrum.  They are proved, for every dimensionality and every real vector, in
+`SpaModel/Props/C12S.lean` (`C12.HrrFFT.makeUnitary_fft_isUnitary`, `power_fft_add`) on the
+half-spectrum model of NumPy's `rfft`/`irfft` (`SpaModel/Spectral/*.lean`), together with
+`power_fft_int` (the FFT path of integer powers IS the `zpow` modelled above) and `bind_fft_eq`
+(the FFT path of `bind` IS circular convolution).  In this file `make_unitary` (HRR) and fractional
+powers stay `PowRes.spectral` / uninterpreted, because the executable driver cannot compute them;
+the correspondence check evaluates the spectral definitions numerically instead (`spectral_tie`)
+and keeps the per-input residual certificates as the oracle on the implementation's outputs.
 -/
 
 end C12
